@@ -177,7 +177,23 @@ class Runner(object):
         self._lock = threading.Lock()
 
     # -- rendering ------------------------------------------------------------
+    CHUNK = 1500
+
     def _write_module(self, obs):
+        """
+        Renders the obligations into modules of at most CHUNK obligations each (a
+        worker imports only the modules it is asked about; one 60 MB module made
+        a re-spawned worker miss its first deadline and the time-outs cascaded).
+        """
+        self.module_of = {}
+        for start in range(0, len(obs), self.CHUNK):
+            path = self.module_path[:-3] + "_{0:03d}.py".format(start // self.CHUNK)
+            chunk = obs[start:start + self.CHUNK]
+            self._write_one(path, chunk)
+            for ob in chunk:
+                self.module_of[ob.name] = path
+
+    def _write_one(self, module_path, obs):
         parts = [
             "# generated by engine/ch.py from {0} -- do not edit\n".format(self.harness_module),
             "import sys\nsys.path.insert(0, '/verif')\n",
@@ -192,7 +208,7 @@ class Runner(object):
                 for code in ob.twin_codes:
                     parts.append(ob.render("{0}__tw{1}".format(ob.name, code), "_ != {0}".format(code)))
                     parts.append("\n")
-        with open(self.module_path, "w") as fp:
+        with open(module_path, "w") as fp:
             fp.write("".join(parts))
 
     def _retry_module(self, ob, fn_name, post, extra_pre):
@@ -265,7 +281,8 @@ class Runner(object):
         Returns a list of events: (kind, text, payload)
         """
         events = []
-        module = self.module_path
+        module = self.module_of[ob.name]
+        home = module
         fn = ob.name
         extra_pre = []
         verdict = None
@@ -305,13 +322,13 @@ class Runner(object):
         if ob.kind == "main" and verdict[0] == "confirmed":
             for code in ob.twin_codes:
                 tfn = "{0}__tw{1}".format(ob.name, code)
-                res = self._analyze(worker, self.module_path, tfn, ob.timeout)
+                res = self._analyze(worker, home, tfn, ob.timeout)
                 ok = False
                 detail = res
                 if res.get("state") == "POST_FAIL":
                     call = parse_counterexample(res.get("message", ""))
                     if call is not None:
-                        nat = self._native(worker, self.module_path, tfn, call)
+                        nat = self._native(worker, home, tfn, call)
                         ok = nat.get("state") == "RETURNED" and nat.get("code") == code
                         detail = dict(res, call=call, native=nat)
                 events.append(("twin", ob, (ok, code, detail)))
@@ -418,7 +435,7 @@ class Runner(object):
                         "property": report.prop,
                         "obligation": ob.name,
                         "shape": ob.shape,
-                        "module": self.module_path,
+                        "module": self.module_of.get(ob.name),
                         "harness": self.harness_module,
                         "call": detail.get("call"),
                         "crosshair": detail.get("message"),
@@ -464,7 +481,7 @@ class Runner(object):
                         "property": report.prop,
                         "obligation": ob.name,
                         "shape": ob.shape,
-                        "module": self.module_path,
+                        "module": self.module_of.get(ob.name),
                         "call": detail.get("call"),
                         "native": detail.get("native"),
                         "source": ob.render(ob.name, ob.post),
